@@ -437,6 +437,117 @@ def why_not_member(t, v, mros):
     return f"{k}<-{vk}"
 
 
+def d_truthy(g):
+    k = g["k"]
+    if k == "none":
+        return False
+    if k == "bool":
+        return g["b"]
+    if k == "int":
+        return int(g["i"]) != 0
+    if k == "float":
+        return not (g["f"]["k"] == "fin" and g["f"]["m"] == "0")
+    if k == "str":
+        return g["s"] != ""
+    if k in ("list", "tuple"):
+        return bool(g["vs"])
+    if k == "dict":
+        return bool(g["ks"])
+    if k == "other":
+        return g["truthy"]
+    return True
+
+
+def d_num(g):
+    if g["k"] == "bool":
+        return int(g["b"])
+    if g["k"] == "int":
+        return int(g["i"])
+    return fl_build(g["f"])
+
+
+def equalish(t, s, g, mros):
+    """the stored value `s` is the given value `g` up to the documented coercions of the declared type `t`
+    (integral float -> int, int -> float, str -> Path; bool() for bool) — stated on descriptions"""
+    k = t["k"]
+    if k == "bool":
+        return s["k"] == "bool" and s["b"] == d_truthy(g)
+    if k == "int":
+        if s["k"] not in ("int", "bool"):
+            return False
+        if g["k"] == "float":
+            x = fl_build(g["f"])
+            return s["k"] == "int" and math.isfinite(x) and x == int(x) and int(s["i"]) == int(x)
+        return s == g
+    if k == "float":
+        if s["k"] != "float":
+            return False
+        if g["k"] == "float":
+            return s == g
+        if g["k"] in ("int", "bool"):
+            try:
+                return s == D_float(float(d_num(g)))
+            except OverflowError:
+                return False
+        return False
+    if k == "path":
+        if s["k"] != "path":
+            return False
+        if g["k"] == "str":
+            return s["s"] == str(Path(g["s"]))
+        if g["k"] == "dict":  # the serialised form {"$type": "path", "$value": ...}
+            d = {kk.get("s"): x for kk, x in zip(g["ks"], g["vs"])}
+            x = d.get("$value")
+            return d.get("$type") == D_str("path") and x is not None and x["k"] in ("str", "path") and s["s"] == str(Path(x["s"]))
+        return s == g
+    if k in ("str", "enum"):
+        return s == g and member(t, s, mros)
+    if k == "cfg":
+        return s["k"] == "config" and g["k"] == "config" and s["id"] == g["id"]
+    if k == "opt":
+        return (s["k"] == "none" and g["k"] == "none") or equalish(t["t"], s, g, mros)
+    if k == "list":
+        return s["k"] == "list" and g["k"] == "list" and len(s["vs"]) == len(g["vs"]) and \
+            all(equalish(t["t"], a, b, mros) for a, b in zip(s["vs"], g["vs"]))
+    if k == "dict":
+        return s["k"] == "dict" and g["k"] == "dict" and s["ks"] == g["ks"] and len(s["vs"]) == len(g["vs"]) and \
+            all(equalish(t["t"], a, b, mros) for a, b in zip(s["vs"], g["vs"]))
+    if k == "union":
+        return any(member(a, s, mros) and equalish(a, s, g, mros) for a in t["ts"])
+    return s == g
+
+
+def coercible(t, g, mros):
+    """`g` is a member of `t` or becomes one by a documented coercion"""
+    k = t["k"]
+    if k == "bool":
+        return True
+    if k == "int":
+        if g["k"] == "float":
+            x = fl_build(g["f"])
+            return math.isfinite(x) and x == int(x)
+        return g["k"] in ("int", "bool")
+    if k == "float":
+        if g["k"] in ("int", "bool"):
+            try:
+                float(d_num(g))
+                return True
+            except OverflowError:
+                return False
+        return g["k"] == "float"
+    if k == "path":
+        return g["k"] in ("path", "str")
+    if k == "opt":
+        return g["k"] == "none" or coercible(t["t"], g, mros)
+    if k == "list":
+        return g["k"] == "list" and all(coercible(t["t"], x, mros) for x in g["vs"])
+    if k == "dict":
+        return g["k"] == "dict" and all(kk["k"] == "str" for kk in g["ks"]) and all(coercible(t["t"], x, mros) for x in g["vs"])
+    if k == "union":
+        return any(coercible(a, g, mros) for a in t["ts"])
+    return member(t, g, mros)
+
+
 def union_domain(t):
     """unions inside the domain of `validate_conforming_id_union`: alternatives that neither coerce
     to an unequal value nor swallow everything (no bool, float, path alternative)"""
@@ -930,19 +1041,23 @@ def one_set_case(ctx, cls, arg, kind, vd, depth, W0, impl, lines, impls, metas, 
     tyname = render_ty(t, S_NAMES)
     if out["r"] == "ok":
         sd = strip_cls(stored_d)
-        ok_none = sd["k"] == "none" and not required(arg)
+        ok_none = sd["k"] == "none" and not required(arg) and vd["k"] == "none"
         if not ok_none and not member(t, sd, S_MROS):
             why = why_not_member(t["t"] if t["k"] == "opt" else t, sd, S_MROS)
             ctx.monitor_fail(f"stored-nonmember:{why}",
                              f"Param[{tyname}] given {v!r} stores {stored!r}, which is not a {tyname} ({why}) and no exception is raised", case)
-    if is_member and kind != "readonly" and not (vd["k"] == "none" and required(arg)):
+        elif not ok_none and not equalish(t, sd, vdm, S_MROS):
+            ctx.monitor_fail(f"stored-not-the-given-value:{'union' if has_union(t) else t['k']}",
+                             f"Param[{tyname}] given {v!r} stores {stored!r}: not the given value up to the documented coercions", case)
+    if kind != "readonly" and not (vd["k"] == "none" and required(arg)) and coercible(t, vdm, S_MROS):
         in_domain = union_domain(t)
         if not in_domain:
             ctx.count("conforming_outside_union_domain", out["r"])
         elif out["r"] == "err":
-            ctx.monitor_fail(f"conforming-rejected:{out['e']}:{'union' if has_union(t) else t['k']}",
-                             f"Param[{tyname}] rejects the conforming value {v!r} with {out['e']}", case)
-        elif not (stored is v or stored == v):
+            what = "conforming-rejected" if is_member else "coercion-rejected"
+            ctx.monitor_fail(f"{what}:{out['e']}:{'union' if has_union(t) else t['k']}",
+                             f"Param[{tyname}] rejects the {'conforming' if is_member else 'coercible'} value {v!r} with {out['e']}", case)
+        elif is_member and not (stored is v or stored == v):
             ctx.monitor_fail(f"conforming-changed:{'union' if has_union(t) else t['k']}",
                              f"Param[{tyname}] given the conforming value {v!r} reads back {stored!r}", case)
     # ---- bookkeeping
